@@ -308,7 +308,7 @@ func (g *docGen) item() {
 	}
 }
 
-var badBits = []string{"<!-->", "<!--->", "<!-- <!-- -->", "<!-- --!> -->", "<!-- <!--->", "<p a=1 a=2>", "<p a a>", "<p", "<p a=", "<p a='x", "<!--", "<![CDATA[ x", "<", "< >", "<>", "</>", "<p =>", "<p ==>", "<p a==b>", "<p 'a'>", "<p a=\"x\"b>", "<p a='x'/>", "<p/ >", "<//>", "<!--x--->", "<!---->", "<!-- a -- b -->", "<p a = >", "<p\n>", "<![CDATA[]]>", "<![cdata[x]]>", "<!--->-->", "<p a=b=c>", "<p a= 'x' b>", "<script", "<script>x</script", "<title/>x</title>", "<p :text=>", "<p :text=a>", "<p :text=\"${\">", "<p :text='${a'>", "<p :text=\"${'}\">", "<p :else>", "<p :else  x>", "<p :text=\"a\"\"b\">"}
+var badBits = []string{"<p A A>", "<svg viewBox=1 viewBox=2>", "<p Data-x=1 id=i Data-x=>", "<p ID=a id=b>", "<p É É>", "<p :Foo=\"${a}\" :Foo=\"${b}\">", "<!-->", "<!--->", "<!-- <!-- -->", "<!-- --!> -->", "<!-- <!--->", "<p a=1 a=2>", "<p a a>", "<p", "<p a=", "<p a='x", "<!--", "<![CDATA[ x", "<", "< >", "<>", "</>", "<p =>", "<p ==>", "<p a==b>", "<p 'a'>", "<p a=\"x\"b>", "<p a='x'/>", "<p/ >", "<//>", "<!--x--->", "<!---->", "<!-- a -- b -->", "<p a = >", "<p\n>", "<![CDATA[]]>", "<![cdata[x]]>", "<!--->-->", "<p a=b=c>", "<p a= 'x' b>", "<script", "<script>x</script", "<title/>x</title>", "<p :text=>", "<p :text=a>", "<p :text=\"${\">", "<p :text='${a'>", "<p :text=\"${'}\">", "<p :else>", "<p :else  x>", "<p :text=\"a\"\"b\">"}
 
 func mutate(r *Rng, s string) string {
 	rs := []rune(s)
